@@ -318,8 +318,8 @@ func Main(c Config) {
 		term, key, nontrivial := cfg.Coq(ctx, c, o)
 		id := ctx.Case(term, c, key, nontrivial)
 		if !okClass(o.Class) {
-			if (c.Kind == "read" || c.Kind == "tree" || c.Kind == "dbtree" || c.Kind == "merge") && hugeChunk(c) && (o.Class == "panic" || o.Class == "oom") &&
-				(strings.Contains(o.Msg, "too large") || strings.Contains(o.Msg, "out of memory") || strings.Contains(o.Msg, "out of range")) {
+			if (c.Kind == "read" || c.Kind == "tree" || c.Kind == "dbtree" || c.Kind == "merge" || c.Kind == "json" || c.Kind == "dbjson") && hugeChunk(c) && (o.Class == "panic" || o.Class == "oom") &&
+				(strings.Contains(o.Msg, "bytes.Buffer: too large") || strings.Contains(o.Msg, "out of memory") || strings.Contains(o.Msg, "bufio.NewReaderSize")) {
 				// known: the temporary buffer for a chunk is allocated from the TOC's chunk size alone
 				ctx.Count(c.Kind + ".huge-chunk-alloc")
 				ctx.Finding(id, "chunk-buffer-alloc", "read/prefetch allocates a buffer of the TOC-declared chunk size; a chunk size beyond memory crashes the daemon", o)
